@@ -35,6 +35,7 @@ RULE = ("each run = one table (2-5 fields, 0-12 records, shared enum field type,
         "negotiated, or while a line task was in flight; distinct = digest of the trace.")
 
 FIELDS = ["id", "name", "status", "level", "flag"]
+ODD_FIELDS = ["my field", "Ünï", "x2", "_u", "a.b"]
 
 
 def init_zygote():
@@ -89,6 +90,10 @@ def generate(rng, tier):
     enums = [gen_enum(rng)]
     k = rng.randint(2, 5)
     fields = rng.sample(FIELDS, k)
+    odd = rng.random() < 0.15
+    if odd:
+        # an unusual but legal field name (holds plain strings)
+        fields[rng.randrange(k)] = rng.choice(ODD_FIELDS)
     if rng.random() < 0.6 and "status" not in fields:
         fields[rng.randrange(k)] = "status"
     has_enum = "status" in fields
@@ -104,8 +109,10 @@ def generate(rng, tier):
                 rec.append(rng.choice([0, 1, 2, 3, 10, 17, 200, 999, None]))
             elif f == "level":
                 rec.append(rng.choice([7, 10, 17, 3.5, -2, None, 123456789]))
-            else:
+            elif f == "flag":
                 rec.append(rng.choice([True, False, None]))
+            else:
+                rec.append(rng.choice(NAMES_S))
         recs.append(rec)
     table = {"kind": "table", "fields": fields, "records": recs}
     if has_enum:
@@ -120,7 +127,7 @@ def generate(rng, tier):
         table["titles"] = {rng.choice(fields): rng.choice(["Two\nLines", "T", "A longer title"])}
     if rng.random() < 0.2:
         table["limits"] = [rng.randint(0, 3), rng.randint(0, 3)]
-    if rng.random() < 0.25 and recs:
+    if rng.random() < 0.25 and recs and not odd:
         table["nt"] = True
     ops = []
     live = set()
